@@ -44,9 +44,27 @@ fn span_pos<T: syn::spanned::Spanned>(t: &T) -> (usize, usize) {
 
 // ================================================================== N1 byte accounting
 
+#[derive(Clone, Copy, PartialEq)]
+pub enum Acct {
+    /// exact byte accounting (positions are byte offsets of the text): C02, C03, C05
+    Full,
+    /// positions only ever advance relatively (translation invariance): C09
+    Relative,
+    /// character folding and window sliding only (what the token stream depends on): C08
+    Folding,
+}
+
 pub fn byte_accounting(cx: &mut Ctx, rule: &str) {
-    cx.rule(rule, "Lexer::next_char is the only function that advances `location` and slides the character window (besides Lexer::new, which seeds location with the start offset and skips a BOM by its own byte length); on every path through next_char the bytes added equal the bytes of the characters slid: CR LF -> 2 slides +2, lone CR -> 1 slide +1, other char c -> 1 slide + c.text_len(), end of input -> 1 slide +0; both CR paths return '\\n'");
-    cx.floor(rule, 8);
+    byte_accounting_mode(cx, rule, Acct::Full)
+}
+
+pub fn byte_accounting_mode(cx: &mut Ctx, rule: &str, mode: Acct) {
+    match mode {
+        Acct::Full => cx.rule(rule, "Lexer::next_char is the only function that advances `location` and slides the character window (besides Lexer::new, which seeds location with the start offset and skips a BOM by its own byte length); on every path through next_char the bytes added equal the bytes of the characters slid: CR LF -> 2 slides +2, lone CR -> 1 slide +1, other char c -> 1 slide + c.text_len(), end of input -> 1 slide +0; both CR paths return '\\n'"),
+        Acct::Relative => cx.rule(rule, "the lexer's position is seeded with the caller's start offset in Lexer::new and afterwards only ever advanced relatively (`location += <amount that does not read a position>`), never assigned; get_pos() returns it unchanged — so the start offset translates every position"),
+        Acct::Folding => cx.rule(rule, "line-ending folding: Lexer::next_char (and the window filling in Lexer::new) are the only code that slides the character window; in next_char CR LF slides twice and yields one '\\n', a lone CR slides once and yields '\\n', any other character slides once and is returned unchanged — CR, LF and CRLF sources give the lexer the same character stream"),
+    }
+    cx.floor(rule, match mode { Acct::Full => 8, Acct::Relative => 4, Acct::Folding => 5 });
     let Some(lx) = load_lexer(cx, rule) else { return };
     // who writes location / slides
     let mut writers: BTreeMap<String, Vec<String>> = BTreeMap::new();
@@ -80,7 +98,20 @@ pub fn byte_accounting(cx: &mut Ctx, rule: &str) {
         });
     }
     for (fname, ws) in &writers {
+        if mode == Acct::Folding {
+            break;
+        }
         for w in ws {
+            if mode == Acct::Relative {
+                let rhs = w.split("+=").nth(1);
+                let ok = matches!(rhs, Some(r) if !r.contains("location") && !r.contains("get_pos") && !r.contains("start")) && !w.contains("-=");
+                if ok {
+                    cx.ok(rule, &format!("{}: `{}` advances relatively", fname, w));
+                } else {
+                    cx.fail(rule, &format!("{}/writer/{}/{}", rule, fname, w), &lx.rel, &format!("Lexer::{} writes the position with `{}`: an assignment (or an advance by a position) discards the start offset", fname, w));
+                }
+                continue;
+            }
             let ok = match fname.as_str() {
                 "next_char" => w == "self.location+=TextSize::from(1)" || w == "self.location+=c.text_len()",
                 "new" => w.starts_with("lxr.location+=") && w.ends_with(".text_len()"),
@@ -94,6 +125,9 @@ pub fn byte_accounting(cx: &mut Ctx, rule: &str) {
         }
     }
     for (fname, n) in &sliders {
+        if mode == Acct::Relative {
+            break;
+        }
         if fname == "next_char" || fname == "new" {
             cx.ok(rule, &format!("{} slides the window {}x", fname, n));
         } else {
@@ -106,7 +140,7 @@ pub fn byte_accounting(cx: &mut Ctx, rule: &str) {
         Some(m) => {
             let t = sm::tsx(&m.block);
             let mut probs = vec![];
-            if !t.contains("location:start,") {
+            if !t.contains("location:start,") && mode != Acct::Folding {
                 probs.push("location is not seeded with the `start` parameter".to_string());
             }
             // BOM branch
@@ -125,14 +159,21 @@ pub fn byte_accounting(cx: &mut Ctx, rule: &str) {
                     }
                 }
             });
+            if mode != Acct::Full {
+                bom_ok = true;
+            }
             if !bom_ok {
                 probs.push("the BOM branch is not `if let Some('\\u{feff}') = window[0] { slide; location += '\\u{feff}'.text_len() }`".to_string());
             }
-            if sliders.get("new").copied().unwrap_or(0) != 4 {
+            if mode == Acct::Full && sliders.get("new").copied().unwrap_or(0) != 4 {
                 probs.push(format!("{} window slides in new() (3 to fill + 1 for the BOM expected)", sliders.get("new").copied().unwrap_or(0)));
             }
             if probs.is_empty() {
-                cx.ok(rule, "Lexer::new: location = start; BOM skipped with one slide and += its text_len()");
+                cx.ok(rule, match mode {
+                    Acct::Full => "Lexer::new: location = start; BOM skipped with one slide and += its text_len()",
+                    Acct::Relative => "Lexer::new: location = start",
+                    Acct::Folding => "Lexer::new fills the window",
+                });
             } else {
                 cx.fail(rule, &format!("{}/new", rule), &lx.loc(m), &probs.join("; "));
             }
@@ -140,6 +181,7 @@ pub fn byte_accounting(cx: &mut Ctx, rule: &str) {
     }
     // next_char paths
     match lexer_method(&lx, "next_char") {
+        _ if mode == Acct::Relative => {}
         None => cx.anchor_missing(rule, "Lexer::next_char"),
         Some(m) => match next_char_paths(m) {
             Err(e) => cx.fail(rule, &format!("{}/next_char/unrecognised", rule), &lx.loc(m), &format!("next_char has a shape the byte-accounting interpreter does not know: {}", e)),
@@ -159,7 +201,7 @@ pub fn byte_accounting(cx: &mut Ctx, rule: &str) {
                     match want.get(cls.as_str()) {
                         Some((slides, incs, ret)) => {
                             let got_incs = p.incs.join("+");
-                            if p.slides == *slides && got_incs == *incs && p.ret == *ret {
+                            if p.slides == *slides && (got_incs == *incs || mode == Acct::Folding) && p.ret == *ret {
                                 cx.ok(rule, &format!("next_char path [{}]: {} slide(s), location += {}, returns {}", cls, p.slides, if incs.is_empty() { "0" } else { incs }, p.ret));
                             } else {
                                 cx.fail(rule, &format!("{}/next_char/{}", rule, cls), &lx.loc(m), &format!("path [{}]: {} slide(s), location += [{}], returns {}; expected {} slide(s), += [{}], returns {}", cls, p.slides, got_incs, p.ret, slides, incs, ret));
@@ -178,6 +220,7 @@ pub fn byte_accounting(cx: &mut Ctx, rule: &str) {
     }
     // get_pos returns location
     match lexer_method(&lx, "get_pos") {
+        _ if mode == Acct::Folding => {}
         Some(m) if sm::tsx(&m.block) == "{self.location}" => cx.ok(rule, "get_pos() = self.location"),
         Some(m) => cx.fail(rule, &format!("{}/get_pos", rule), &lx.loc(m), "get_pos does not return self.location"),
         None => cx.anchor_missing(rule, "Lexer::get_pos"),
